@@ -12,6 +12,13 @@
 (*                         that only polls the clock is not "taking whole   *)
 (*                         steps until its budget is used up").             *)
 (*                                                                         *)
+(*   OverrunBounded      : when every step costs the same c, the call       *)
+(*                         returns within 2 max(20 c, 1 s) + c of the       *)
+(*                         deadline (the first batch of the as-built loop   *)
+(*                         is 20 steps, later ones about one second's       *)
+(*                         worth; the bound leaves a factor two), whatever  *)
+(*                         history the chain already has.                   *)
+(*                                                                         *)
 (* This module is the trace specification: it consumes the events recorded  *)
 (* from the real run_for (driven by a fake clock whose cost schedule TLC    *)
 (* enumerated, RunForGen.tla), several runs per file.  Times are integer    *)
@@ -20,26 +27,31 @@
 EXTENDS Integers, Sequences, TLC, TLCExt, Json, IOUtils
 CONSTANT R
 Log == ndJsonDeserialize(IOEnv.TRACE_FILE)
-VARIABLES l, running, deadline, budget, idle, over, steps, maxidle
-vars == <<l, running, deadline, budget, idle, over, steps, maxidle>>
+VARIABLES l, running, deadline, budget, idle, over, steps, maxidle, uni, cmax, last
+vars == <<l, running, deadline, budget, idle, over, steps, maxidle, uni, cmax, last>>
+Max(a, b) == IF a > b THEN a ELSE b
 Ev == Log[l]
 TraceInit == TLCSet(1, 1) /\ l = 1 /\ running = FALSE /\ deadline = -1 /\ budget = 0 /\ idle = 0 /\ over = FALSE /\ steps = 0 /\ maxidle = 0
+             /\ uni = FALSE /\ cmax = 0 /\ last = 0
 Begin == /\ Ev.ev = "Begin" /\ ~running /\ running' = TRUE /\ budget' = Ev.budget /\ deadline' = -1
          /\ idle' = 0 /\ over' = FALSE /\ steps' = 0 /\ maxidle' = 0
+         /\ uni' = (IF "uniform" \in DOMAIN Ev THEN Ev.uniform ELSE FALSE) /\ cmax' = (IF "cmax" \in DOMAIN Ev THEN Ev.cmax ELSE 0) /\ last' = 0
 Clock == /\ Ev.ev = "Clock" /\ running
          /\ deadline' = IF deadline = -1 THEN Ev.t + budget ELSE deadline          \* the first read fixes the deadline
          /\ over' = (over \/ (deadline # -1 /\ Ev.t >= deadline))
          /\ idle' = IF deadline # -1 /\ Ev.t < deadline THEN idle + 1 ELSE idle
          /\ maxidle' = IF idle' > maxidle THEN idle' ELSE maxidle
-         /\ UNCHANGED <<running, budget, steps>>
+         /\ last' = Ev.t
+         /\ UNCHANGED <<running, budget, steps, uni, cmax>>
 \* Ev.n >= 1 consecutive whole steps with no clock read in between
 Step == /\ Ev.ev = "Steps" /\ running /\ Ev.n >= 1
         /\ ~over                                   \* NoStepAfterBudget
-        /\ idle' = 0 /\ steps' = steps + Ev.n /\ UNCHANGED <<running, deadline, budget, over, maxidle>>
+        /\ idle' = 0 /\ steps' = steps + Ev.n /\ UNCHANGED <<running, deadline, budget, over, maxidle, uni, cmax, last>>
 End == /\ Ev.ev = "End" /\ running
        /\ over                                     \* ExitOnlyAfterBudget
        /\ Ev.added = steps                         \* the chain grew by exactly the steps taken (whole steps)
-       /\ running' = FALSE /\ UNCHANGED <<deadline, budget, idle, over, steps, maxidle>>
+       /\ (uni => (last - deadline - cmax) \div 2 <= Max(20 * cmax, 1000000))      \* OverrunBounded
+       /\ running' = FALSE /\ UNCHANGED <<deadline, budget, idle, over, steps, maxidle, uni, cmax, last>>
 TraceNext == l <= Len(Log) /\ l' = l + 1 /\ (Begin \/ Clock \/ Step \/ End)
 TraceSpec == TraceInit /\ [][TraceNext]_vars
 StarvationFree == idle <= R
